@@ -986,9 +986,27 @@ fn wire_case(ctx: &mut Ctx, fix: &KeyFix, tag: u8, hp: &HP, pw: &[u8]) -> Option
 /// the secret material with its MPIs written the way other implementations write them: the bit
 /// count rounded up to whole octets (GnuPG writes 256 for a 253-bit EdDSA scalar), or one leading zero
 /// octet.  `None` when the material is not a sequence of MPIs or nothing would change.
-fn noncanonical_raw(fix: &KeyFix, how: u8) -> Option<Vec<u8>> {
+fn noncanonical_raw(fix: &KeyFix, how: u8) -> Option<(Vec<u8>, Vec<u8>)> {
     if !fix.fmt.split(',').all(|f| f == "m") {
         return None;
+    }
+    if how == 2 {
+        // a SHORT value: the first MPI with its most significant octet zero, stored minimally (one
+        // octet fewer) — what one key in 256 looks like when another implementation stores a scalar
+        // it does not clamp.  The material is canonical: it comes back as it is.
+        // (single-MPI materials only: RSA / DSA parameters are checked against each other)
+        if fix.raw.len() < 4 || fix.fmt != "m" {
+            return None;
+        }
+        let bits = u16::from_be_bytes([fix.raw[0], fix.raw[1]]) as usize;
+        let len = bits.div_ceil(8);
+        if len < 3 || 2 + len > fix.raw.len() {
+            return None;
+        }
+        let val = &fix.raw[3..2 + len]; // drop the top octet
+        let mut short = crate::wire::mpi(val);
+        short.extend_from_slice(&fix.raw[2 + len..]);
+        return Some((short.clone(), short));
     }
     let mut out = Vec::new();
     let mut i = 0usize;
@@ -1017,13 +1035,13 @@ fn noncanonical_raw(fix: &KeyFix, how: u8) -> Option<Vec<u8>> {
     if i != fix.raw.len() || !changed {
         return None;
     }
-    Some(out)
+    Some((out, fix.raw.clone()))
 }
 
 /// a key from the wire whose secret MPIs are not minimally encoded: whichever usage octet protects it,
 /// the right password restores the (same) material (oracle only)
 fn wire_noncanonical_case(ctx: &mut Ctx, fix: &KeyFix, tag: u8, hp: &HP, pw: &[u8], how: u8) {
-    let Some(raw) = noncanonical_raw(fix, how) else { return };
+    let Some((raw, expected)) = noncanonical_raw(fix, how) else { return };
     let Some(blob) = own_protect(fix.ver, tag, &fix.pub_body, hp, pw, &raw) else { return };
     let sec = hp.wire(fix.ver, &blob);
     let mut body = fix.pub_body.clone();
@@ -1031,7 +1049,7 @@ fn wire_noncanonical_case(ctx: &mut Ctx, fix: &KeyFix, tag: u8, hp: &HP, pw: &[u
     let Some(packet) = frame::frame_fixed(true, tag, if body.len() < 192 { 1 } else if body.len() < 8384 { 2 } else { 5 }, &body) else { return };
     let usage = if hp.var == 1 { "legacy".to_string() } else { hp.usage_octet().to_string() };
     let site = format!("PacketParser -> SecretKey::unlock (harness-built packet, secret MPIs not minimally encoded, usage octet {usage})");
-    let input = format!("{} form={} packet={} pw={}", fix.name, if how == 0 { "bit count rounded up" } else { "leading zero octet" }, hx(&packet), hx(pw));
+    let input = format!("{} form={} packet={} pw={}", fix.name, match how { 0 => "bit count rounded up", 1 => "leading zero octet", _ => "value one octet short (top octet zero, stored minimally)" }, hx(&packet), hx(pw));
     let parsed = guarded(|| parse_key_packet(&packet));
     match parsed {
         Err(_) => ctx.oracle("wire_unlock_any_usage", &site, &input, false, "parser panicked"),
@@ -1041,9 +1059,9 @@ fn wire_noncanonical_case(ctx: &mut Ctx, fix: &KeyFix, tag: u8, hp: &HP, pw: &[u
             let u = unlock_case(ctx, (fix.ver, fix.fmt), tag, hp, pw, &k, &blob, &fix.pub_body, "wire_noncanonical");
             ctx.stat(&format!("wire_noncanonical:usage{usage}:{}", if matches!(&u, Ok(Ok(_))) { "unlocked" } else { "refused" }));
             if unlock_supported(fix.ver, hp) {
-                ctx.oracle("wire_unlock_any_usage", &site, &input, matches!(&u, Ok(Ok(m)) if *m == fix.raw), &short(&ans_unlock(&u)));
+                ctx.oracle("wire_unlock_any_usage", &site, &input, matches!(&u, Ok(Ok(m)) if *m == expected), &short(&ans_unlock(&u)));
             } else {
-                ctx.oracle("wire_unlock_never_other_material", &site, &input, matches!(&u, Ok(Err(_))) || matches!(&u, Ok(Ok(m)) if *m == fix.raw), &short(&ans_unlock(&u)));
+                ctx.oracle("wire_unlock_never_other_material", &site, &input, matches!(&u, Ok(Err(_))) || matches!(&u, Ok(Ok(m)) if *m == expected), &short(&ans_unlock(&u)));
             }
         }
     }
@@ -1822,6 +1840,7 @@ pub fn run(ctx: &mut Ctx) {
                     let pw = pws[n % pws.len()].clone();
                     wire_noncanonical_case(ctx, fix, if n % 2 == 0 { 5 } else { 7 }, &hp, &pw, (n % 2) as u8);
                     wire_noncanonical_case(ctx, fix, if n % 2 == 0 { 5 } else { 7 }, &hp, &pw, ((n + 1) % 2) as u8);
+                    wire_noncanonical_case(ctx, fix, if n % 2 == 0 { 5 } else { 7 }, &hp, &pw, 2);
                     if let Some(l) = wire_case(ctx, fix, if n % 2 == 0 { 5 } else { 7 }, &hp, &pw) {
                         wire_locked.push((fi, l));
                     }
